@@ -68,6 +68,9 @@ package collector
 //@                    && (forall k in [0, len(elements)): ie(elements[k]).Name != "")
 //@   loop 2 invariant disj: forall i in [0, len(dataSet.records)): arr(dataSet.records[i].(*dataRecord).orderedElementList) != arr(elements)
 //@   loop 2 invariant prog: len(dataBuffer.buf) <= remaining && 0 < remaining
+//@   // bytes taken per template field do not depend on the decoding mode (C17: the fields after an unknown one are read from the same offsets)
+//@   loop 2 step fixed: template[$i - 1].Len != 65535 ==> len(dataBuffer.buf) == prev(len(dataBuffer.buf)) - template[$i - 1].Len
+//@   loop 2 step var:   template[$i - 1].Len == 65535 ==> len(dataBuffer.buf) == prev(len(dataBuffer.buf)) - (prev(dataBuffer.buf[0]) < 255 ? 1 : 3) - length
 //@   loop 2 invariant ptr:  dataSet != nil && fresh(dataSet) && fresh(dataSet.records) && dataBuffer != nil && arr(dataBuffer.buf) == old(arr(dataBuffer.buf))
 //@   loop 2 invariant mode: dataSet.isDecoding && dataSet.setType == Data && !cp.mutex.held && !cp.mutex.rheld
 //@   loop 2 invariant sinv: setInv(dataSet)
